@@ -1,7 +1,7 @@
 (* C15 -- No xorb or chunk exceeds the configured and wire-format limits.  Statements only. *)
 From Coq Require Import NArith Bool List.
 Import ListNotations.
-From XetModel Require Import Base.Codec Gen.ShardLayout Gen.DedupFacts Model.Merkle Model.Shard Model.Dedup Proofs.PipelineProofs.
+From XetModel Require Import Base.Codec Gen.ShardLayout Gen.DedupFacts Model.Merkle Model.Shard Model.Dedup Proofs.PipelineProofs Proofs.ResolveProofs Proofs.NoSelfRefProofs.
 Open Scope N_scope.
 
 (* for every oracle and every fragmentation decision: each xorb handed to register_new_xorb is non-empty, holds at most
@@ -18,5 +18,14 @@ Theorem C15_aggregator_limits : forall rc cf s file m, agg_ok cf (s_cur s) -> ag
   agg_ok cf (s_cur (register_completion rc cf s file m)).
 Proof. exact register_completion_limits. Qed.
 
+(* no file record is emitted with an unresolved xorb reference: after finalize every segment of every record in the session
+   shard spans at least one chunk and names a xorb other than the all-zero placeholder of the pending data (premises as for
+   C01_session_records_resolve) *)
+Theorem C15_no_unresolved_reference : forall F U, StoreOk F U -> forall rc cf ops, Forall (op_ok F U) ops ->
+  (forall x, In x (s_uploaded (srun rc cf ops)) -> In x F) ->
+  forall fi s, In fi (s_shard_files (srun rc cf ops)) -> In s (fi_segs fi) -> sg_cas s <> zero_hash /\ sg_start s < sg_end s.
+Proof. exact session_no_unresolved_reference. Qed.
+
 Print Assumptions C15_xorb_limits.
 Print Assumptions C15_aggregator_limits.
+Print Assumptions C15_no_unresolved_reference.
